@@ -92,20 +92,30 @@ def baseAddCell (cfg : Cfg) (faces : List (List Nat)) (hfs : List Nat) : R (Opti
     else do let ok ← cellCheck faces hfs; pure (if ok then some hfs else none)
   else pure (some hfs)
 
+/-- number of distinct vertices met by the halfedges of the given halffaces: the `std::set<VertexHandle>` guard of the
+    tetrahedral / hexahedral `add_cell` overrides (64c6d58 / 7b999c9); unchecked `faces_[..]` / `edges_[..]` accesses -/
+def spanCount (edges : List (Nat × Nat)) (faces : List (List Nat)) (hfs : List Nat) : R Nat := do
+  let hes := (← hfs.mapM (hfHalfedges faces)).flatten
+  let ends ← hes.mapM (heEnds edges)
+  pure (OVM.toSet (ends.flatMap (fun e => [e.1, e.2]))).length
+
 /-- `add_cell(halffaces, topology_check)` of the mesh type: the stored halfface list, or `none` when rejected -/
-def addCell (cfg : Cfg) (faces : List (List Nat)) (hfs : List Nat) : R (Option (List Nat)) :=
+def addCell (cfg : Cfg) (edges : List (Nat × Nat)) (faces : List (List Nat)) (hfs : List Nat) : R (Option (List Nat)) :=
   match cfg.kind with
   | .poly => baseAddCell cfg faces hfs
   | .tet =>
     if hfs.length ≠ 4 then pure none
     else do
       let fs ← hfs.mapM (fun hf => getU faces (hf / 2))
-      if fs.all (·.length == 3) then baseAddCell cfg faces hfs else pure none
+      if !fs.all (·.length == 3) then pure none
+      else if (← spanCount edges faces hfs) ≠ 4 then pure none
+      else baseAddCell cfg faces hfs
   | .hex =>
     if hfs.length ≠ 6 then pure none
     else do
       let fs ← hfs.mapM (fun hf => getU faces (hf / 2))
       if !fs.all (·.length == 4) then pure none
+      else if (← spanCount edges faces hfs) ≠ 8 then pure none
       else if !cfg.topoCheck then baseAddCell cfg faces hfs
       else match cfg.hexOrder faces hfs with
         | .asIs => baseAddCell cfg faces hfs
@@ -221,13 +231,13 @@ def addFaces (cfg : Cfg) (edges : List (Nat × Nat)) : List (List Nat) → R Boo
     let ok ← addFace cfg edges f
     if ok then addFaces cfg edges fs else pure false
 
-def addCells (cfg : Cfg) (faces : List (List Nat)) : List (List Nat) → R (Option (List (List Nat)))
+def addCells (cfg : Cfg) (edges : List (Nat × Nat)) (faces : List (List Nat)) : List (List Nat) → R (Option (List (List Nat)))
   | [] => pure (some [])
   | c :: cs => do
-    match ← addCell cfg faces c with
+    match ← addCell cfg edges faces c with
     | none => pure none
     | some c' =>
-      match ← addCells cfg faces cs with
+      match ← addCells cfg edges faces cs with
       | none => pure none
       | some r => pure (some (c' :: r))
 
@@ -280,7 +290,7 @@ def applyTopo (cfg : Cfg) (s : RState) (payload : Bytes) : R RState := do
         else if s.topo = topoTypeHexahedral ∧ h.valence ≠ 6 then invalid
         else
           let (cs, rest) ← runDec (readFaceLists w h.off (2 * s.faces.length) (vals ())) p2
-          match ← addCells cfg s.faces cs with
+          match ← addCells cfg s.edges s.faces cs with
           | none => invalid
           | some cs' =>
             if !rest.isEmpty then invalid
